@@ -849,6 +849,10 @@ def data_case(ctx, g, rng):
         entry = "helper"      # building the MCMC graph is slow: only every 4th admissible case really builds it (same rule in
         #                       both tiers, so that a replay does not depend on the tier)
     prior = get_prior(p, q)
+    if entry == "setup_mcmc" and "obs" in prior.model.named_vars:
+        # a model set up for MCMC belongs to the data it was set up for (setup_mcmc refuses other data): new prior
+        _priors.pop((p, q))
+        prior = get_prior(p, q)
     samples = make_samples(rng, p, q, linear=(entry == "setup_mcmc"))
     objs = [make_source(rng, s) for s in srcs]
     if form == "single":
